@@ -5,11 +5,11 @@ from ..world import world_from
 from . import resolve_common as R
 
 CLAIM = dict(
-    text="Coq theorems on the MultiTypeMap state machine with registration (Model/Cache.v) and on the function's definition dictionary (Model/Resolve.v defs_register / defs_unregister): after any sequence of registrations and plain accesses the table's content under plain keys is what a fresh table over the resulting handlers answers, and so is every later plain access (C05_table, C05_table_after_register; full since KF-04 was repaired in /repo by a fix: commit -- register now also forgets remembered errors and candidate sets); for the function the full statement is false of the faithful model: C05_function_refuted (KF-05: tiebreaks are history -- after unregistering a method that had pushed an identical signature down, the survivor keeps tiebreak -1 and loses ties it would not lose in a fresh function). Tie to /repo: random register/access histories on a real MultiTypeMap vs the state machine step by step, and random register / re-register / unregister / call histories on a real Ovld, every probe after every step compared with a function freshly built from the resulting method set (property oracle) and with the model; failures must fall in KF-05's class and equal the model's prediction.",
+    text="Coq theorems on the MultiTypeMap state machine with registration (Model/Cache.v) and on the function's definition dictionary (Model/Resolve.v defs_register / defs_unregister): after any sequence of registrations and plain accesses the table's content under plain keys is what a fresh table over the resulting handlers answers, and so is every later plain access (C05_table, C05_table_after_register; full since KF-04 was repaired in /repo by a fix: commit -- register now also forgets remembered errors and candidate sets), continuation keys included for handlers with distinct code objects (C05_table_full); for any sequence of registrations the function's definition dictionary keeps unique (signature, tiebreak) keys and exactly the registered methods (C05_registrations_keep_all); for the function the full statement is false of the faithful model: C05_function_refuted (KF-05: tiebreaks are history -- after unregistering a method that had pushed an identical signature down, the survivor keeps tiebreak -1 and loses ties it would not lose in a fresh function). Tie to /repo: random register/access histories on a real MultiTypeMap vs the state machine step by step, and random register / re-register / unregister / call histories on a real Ovld, every probe after every step compared with a function freshly built from the resulting method set (property oracle) and with the model; failures must fall in KF-05's class and equal the model's prediction.",
     note="Trusted: as C02/C04. Partial: continuation keys are not in the table theorem; Ovld rebuilds a new table on every change after first use, which the function-level model represents by recomputing resolution from the definition dictionary.",
     technique="Coq proof (cache invariant re-established by register when no error is remembered; refutations by vm_compute) + differential correspondence on operation histories", design="6 C05")
 
-THEOREMS = ["C05_table", "C05_table_after_register", "C05_function_refuted"]
+THEOREMS = ["C05_table", "C05_table_after_register", "C05_table_full", "C05_registrations_keep_all", "C05_function_refuted"]
 ASSUMPTIONS = []
 
 
